@@ -235,3 +235,130 @@ func VerifC10Fold() {
 		verifAssert(false, "witness")
 	}
 }
+
+func verifHexDigit(v byte) byte {
+	if v < 10 {
+		return '0' + v
+	}
+	return 'a' + v - 10
+}
+
+// byte mode never folds bytes >= 0x80: (?i)[\xHH] and (?i)\xHH with a symbolic high byte
+func VerifC10FoldHigh() {
+	form := verifParam("form") // 0: (?i)[\xHH]  1: (?i)\xHH standalone  2: (?i)[\xHH-\xKK] with KK = HH+1
+	b := nondetByte()
+	verifAssume(b >= 0x80)
+	if form == 2 {
+		verifAssume(b < 0xff)
+	}
+	esc := func(v byte) []byte { return []byte{'\\', 'x', verifHexDigit(v >> 4), verifHexDigit(v & 15)} }
+	pat := []byte("(?i)")
+	switch form {
+	case 0:
+		pat = append(pat, '[')
+		pat = append(pat, esc(b)...)
+		pat = append(pat, ']')
+	case 1:
+		pat = append(pat, esc(b)...)
+	case 2:
+		pat = append(pat, '[')
+		pat = append(pat, esc(b)...)
+		pat = append(pat, '-')
+		pat = append(pat, esc(b+1)...)
+		pat = append(pat, ']')
+	}
+	x := nondetRune()
+	verifAssume(0 <= x && x <= unicode.MaxRune)
+	re, err := ParseRegexp(string(pat), CharsetOptions{ScanBytes: true})
+	verifAssert(err == nil, "foldhigh-parses")
+	if err != nil {
+		return
+	}
+	switch form {
+	case 0:
+		verifAssert(re.op == opCharClass && verifIn(re.charset, x) == (x == rune(b)), "foldhigh-class-unchanged")
+	case 1:
+		verifAssert(re.op == opBytesLiteral && re.text == string(rune(b)), "foldhigh-literal-unchanged")
+	case 2:
+		verifAssert(re.op == opCharClass && verifIn(re.charset, x) == (x == rune(b) || x == rune(b)+1), "foldhigh-class-unchanged")
+	}
+	if verifWitnessMode() {
+		verifAssert(false, "witness")
+	}
+}
+
+// quantifier binding: a run of plain literal characters followed by a quantifier applies the quantifier to the last character only
+func VerifC10Quant() {
+	nl := verifParam("nl")   // number of literal characters (1..3)
+	form := verifParam("form") // 0 * 1 + 2 ? 3 {d} 4 {d,} 5 {d,e} 6 {dd}
+	bytesMode := verifParam("bytes") == 1
+	lit := make([]byte, nl)
+	for i := range lit {
+		lit[i] = nondetByte()
+		verifAssume(lit[i] >= 'a' && lit[i] <= 'c')
+	}
+	d, e := nondetByte(), nondetByte()
+	verifAssume(d >= '0' && d <= '9' && e >= '0' && e <= '9')
+	pat := append([]byte(nil), lit...)
+	min, max := 0, -1
+	switch form {
+	case 1:
+		min = 1
+	case 2:
+		max = 1
+	}
+	switch form {
+	case 0:
+		pat = append(pat, '*')
+	case 1:
+		pat = append(pat, '+')
+	case 2:
+		pat = append(pat, '?')
+	case 3:
+		pat = append(pat, '{', d, '}')
+		min, max = int(d-'0'), int(d-'0')
+	case 4:
+		pat = append(pat, '{', d, ',', '}')
+		min, max = int(d-'0'), -1
+	case 5:
+		pat = append(pat, '{', d, ',', e, '}')
+		min, max = int(d-'0'), int(e-'0')
+	case 6:
+		pat = append(pat, '{', d, e, '}')
+		min = int(d-'0')*10 + int(e-'0')
+		max = min
+	}
+	re, err := ParseRegexp(string(pat), CharsetOptions{ScanBytes: bytesMode})
+	wantErr := form == 5 && e < d
+	verifAssert((err != nil) == wantErr, "quant-accept-iff-ordered")
+	if err != nil {
+		verifErrInside(err, len(pat), "quant-error-inside-pattern")
+		return
+	}
+	lop := literalOp(bytesMode)
+	rep := re
+	if nl > 1 {
+		ok := re.op == opConcat && len(re.sub) == 2 && re.sub[0].op == lop && re.sub[0].text == string(lit[:nl-1])
+		if max == 0 {
+			// x{0} matches only the empty string: the parser may drop it from the concatenation
+			ok = ok || (re.op == lop && re.text == string(lit[:nl-1]))
+			verifAssert(ok, "quant-prefix-literal")
+			return
+		}
+		verifAssert(ok, "quant-prefix-literal")
+		if !ok {
+			return
+		}
+		rep = re.sub[1]
+	} else if max == 0 {
+		return
+	}
+	verifAssert(rep.op == opRepeat && len(rep.sub) == 1, "quant-is-repeat")
+	if rep.op == opRepeat && len(rep.sub) == 1 {
+		verifAssert(rep.min == min && rep.max == max, "quant-bounds")
+		verifAssert(rep.sub[0].op == lop && rep.sub[0].text == string(lit[nl-1:]), "quant-binds-last-character")
+	}
+	if verifWitnessMode() {
+		verifAssert(false, "witness")
+	}
+}
